@@ -342,6 +342,9 @@ class Labware:
         label : str
             'first', 'last' or label of the condensed entry (default: label of the last entry in the condensate)
         """
+        if n < 1:
+            # nothing to condense (slicing with [:-0] would drop the entire history)
+            return
         if label == "first":
             label = self._labels[len(self._labels) - n]
         if label == "last":
